@@ -137,6 +137,39 @@ def membership(res, cases, tag="sem"):
     return [result.get(c) for c in range(len(cases))]
 
 
+def membership_texts(res, cases, tag="semt"):
+    """cases: list of (TypeScript type text, json text): membership decided by Coq against the REAL parsed declarations;
+    None where the type text does not parse"""
+    import tsparse
+    if "realname" not in res:
+        real_env(res)
+    terms, idx = [], []
+    for c, (ty, text) in enumerate(cases):
+        try:
+            t = tsparse.coq_ty(tsparse.parse_type(ty))
+        except tsparse.ParseError:
+            continue
+        idx.append(c)
+        terms.append("bit (memberb E sfuel %s %s)" % (t, coq_json(parse_json(text))))
+    result = {}
+    nsh = 12
+    files, shards = [], [s for s in (list(range(len(idx)))[k::nsh] for k in range(nsh)) if s]
+    for k, sh in enumerate(shards):
+        body = ("From TsRs Require Import Corr.%s Corr.%s.\n" % (res["envname"], res["realname"]) + CR.HEADER + SEM_HEADER +
+                "Eval vm_compute in [%s].\n" % "; ".join(terms[i] for i in sh))
+        files.append(("%s_%s%d" % (res["envname"], tag, k), body))
+    for (nm, _), (ok, out), sh in zip(files, vlib.coq_eval_many(files, timeout=2400), shards):
+        if not ok:
+            raise vlib.HarnessError("%s.v failed: %s" % (nm, out[-3000:]))
+        vals = vlib.parse_coq_str_list("[" + out.split("=", 1)[1].rsplit(":", 1)[0] + "]")
+        bits = vals[0] if vals else ""
+        if len(bits) != len(sh):
+            raise vlib.HarnessError("%s.v: %d answers for %d cases" % (nm, len(bits), len(sh)))
+        for i, b in zip(sh, bits):
+            result[idx[i]] = b == "1"
+    return [result.get(c) for c in range(len(cases))]
+
+
 def bodies_ok(res):
     """norm_ok of every query's declaration body: the textual rewrites coincide with their structural meaning"""
     qs = res["queries"]
